@@ -1,4 +1,5 @@
 import CandidModel.Proofs.DeHeader
+import CandidModel.Proofs.DeCost
 /-
   C06 — Decoding arbitrary bytes never panics, crashes or over-allocates.
   In the models a Rust `unwrap`, `unreachable!`, out-of-range index or debug-mode overflow is the outcome
@@ -85,5 +86,15 @@ theorem subtype_checker_total (env : Env) (hse : Sub.SafeEnv env) (n : Nat) (g :
 
 /-- non-vacuity: the empty message `DIDL\00\00` parses, and its (empty) table is safe -/
 example : ∃ h body, parseHeader [0x44, 0x49, 0x44, 0x4c, 0, 0] = .ok (h, body) := ⟨_, _, rfl⟩
+
+open Candid.De in
+/-- **A decoding quota bounds what a decode can allocate**: under a decoding quota `n`, whatever values a run returns
+have at most `n` nodes in total (every value materialised — zero-sized ones included — costs at least one unit, and the
+run stops with a quota error when the quota is used up).  The allocation of the untyped decoder is a fixed multiple of
+that number. -/
+theorem quota_bounds_what_is_materialised (bs : Bytes) (env : Env) (expected : List Ty) (n : Nat) (sq : Option Nat)
+    (vs : List Val) (st : St) (h : decodeWithConfig bs env expected ⟨some n, sq⟩ = .ok vs st) : vcountL vs ≤ n := by
+  obtain ⟨r, _, hr⟩ := decode_cost_ge_values bs env expected n sq vs st h
+  omega
 
 end Candid.Props.C06
